@@ -335,7 +335,7 @@ static void emit_itproj(dses_t *s)
 	}
 	jb_printf("],\"known\":[");
 	{ int first = 1; for (uint32_t i = 0; i < s->n; i++) if (cb->encoding_symbols_tab[i]) { jb_printf("%s%u", first ? "" : ",", i); first = 0; } }
-	jb_printf("]}");
+	jb_printf("],\"nrep\":%u}", (unsigned)cb->nb_repair_symbol_ready);
 }
 
 static void emit_common(dses_t *s, int sid, int st)
@@ -607,6 +607,9 @@ static void run_line(char *line)
 		uint32_t esi = AU(1); int nullslot = (na > 2 && !strcmp(a[2], "null"));
 		int inrange = s->configured && esi >= s->k && esi < s->n;
 		if (inrange) s->enc_tab[esi] = nullslot ? NULL : s->cw[esi];
+		/* the API says the library copies the built symbol into the application's buffer: its previous
+		 * content must not matter, so hand over a buffer full of garbage (recycled buffer) */
+		if (inrange && !nullslot && !s->have[esi]) memset(s->cw[esi], 0xA5 ^ (esi & 0x3F), s->len);
 		LIB_ENTER(sid);
 		of_status_t st = of_build_repair_symbol(s->ses, s->enc_tab, esi);
 		LIB_LEAVE();
